@@ -11,7 +11,7 @@ def run(res, props_file, pinned, tag, what):
     cov = res.coverage
     n_node = 160 if quick else 2500
     n_chan = 120 if quick else 1500
-    n_pay = 40 if quick else 600
+    n_pay = 80 if quick else 900
     node = lib.run_harness("nodeops", "run", res.seed, n_node, res.tier, timeout=3000)
     chan = lib.run_harness("chan", "run", res.seed + 7, n_chan, res.tier, profile="debug", timeout=3000)
     chan_rel = lib.run_harness("chan", "run", res.seed + 8, n_chan // 2, res.tier, profile="release", timeout=3000)
